@@ -274,6 +274,7 @@ pub fn gen_random(seed: u64, idx: u64) -> Plan {
         if pipelined {
             c.steps.push(Step::AwaitResponses { count: c.reqs.len(), max_ms: 60_000 });
         }
+        fit_c2s(&mut c);
         conns.push(c);
     }
     Plan {
